@@ -260,7 +260,7 @@ pub fn gen_one(tier: &str, seed: u64, tag: &str) {
 }
 
 /// `mag-probe <from> <to>`: premise statistics and timing (development aid).
-pub fn probe(seed: u64, from: i32, to: i32) {
+pub fn probe(seed: u64, from: i32, to: i32, symprec: f64, msp: Option<f64>) {
     for u in from..=to {
         for (kind, action) in COMBOS {
             let mut rng = Rng::new(seed ^ (u as u64) << 8);
@@ -272,7 +272,8 @@ pub fn probe(seed: u64, from: i32, to: i32) {
                 None => println!("u{} {} ops {} PREMISE-UNSATISFIED gen {:.2}s", u, combo_tag(kind, action), nops, tg),
                 Some(c) => {
                     let t = std::time::Instant::now();
-                    let line = mag_case_line("probe", &c, 1e-4, None);
+                    let c = redescribe(&c, &mut rng, 2, None);
+                    let line = mag_case_line("probe", &c, symprec, msp);
                     let td = t.elapsed().as_secs_f64();
                     let out = line.split(" ; out ").nth(1).unwrap_or("");
                     let head: String = out.chars().take(40).collect();
@@ -325,7 +326,9 @@ pub fn dispatch(args: &[String], seed: u64) -> bool {
             true
         }
         "mag-probe" => {
-            probe(seed, args[2].parse().unwrap(), args[3].parse().unwrap());
+            let sp = if args.len() > 4 { args[4].parse().unwrap() } else { 1e-4 };
+            let msp = if args.len() > 5 { Some(args[5].parse().unwrap()) } else { None };
+            probe(seed, args[2].parse().unwrap(), args[3].parse().unwrap(), sp, msp);
             true
         }
         _ => false,
